@@ -501,6 +501,19 @@ func gnReadFile(fn string, raw []byte) (p gnPrint, kind string) {
 	return p, kind
 }
 
+// gnCfgSummary: the scalar members of a configuration (a long ExtraData shortened)
+func gnCfgSummary(cfg *genesis.GenesisConfig) string {
+	sa := "nil"
+	if cfg.SporkAddress != nil {
+		sa = cfg.SporkAddress.String()
+	}
+	ed := fmt.Sprintf("%q", cfg.ExtraData)
+	if len(cfg.ExtraData) > 40 {
+		ed = fmt.Sprintf("%q… (%d bytes)", cfg.ExtraData[:28], len(cfg.ExtraData))
+	}
+	return fmt.Sprintf("{ChainIdentifier:%d ExtraData:%s GenesisTimestampSec:%d SporkAddress:%s …}", cfg.ChainIdentifier, ed, cfg.GenesisTimestampSec, sa)
+}
+
 // ---- the scenario ----------------------------------------------------------------------------------------------------------
 
 type gnLate struct {
@@ -516,7 +529,7 @@ func gnHeaderClause(c *Ctx, tag, how string, cfg *genesis.GenesisConfig, p gnPri
 	want := fmt.Sprintf("1 %d 1 %d %s", cfg.ChainIdentifier, uint64(cfg.GenesisTimestampSec), hx([]byte(cfg.ExtraData)))
 	if p.header != want || strings.Trim(p.prev, "0") != "" {
 		c.Fail("genesis momentum header is not the configuration's: configuration %s (%s) built %s gives the header (Version ChainIdentifier Height TimestampUnix Data) [%s] PreviousHash %s, the configuration says [%s] and no previous momentum; hash %s",
-			startupCfgSummary(cfg), tag, how, p.header, shortHash(p.prev), want, p.hash)
+			gnCfgSummary(cfg), tag, how, p.header, shortHash(p.prev), want, p.hash)
 	}
 }
 
@@ -525,8 +538,8 @@ func gnPureFail(c *Ctx, tag string, cfg *genesis.GenesisConfig, howA string, a g
 	if len(raw) > 1500 {
 		raw = append(raw[:1500], "…"...)
 	}
-	c.Fail("genesis is not a function of the configuration alone: ONE configuration %s (%s) gives two genesis momentums - built %s: %s - built %s: %s - they differ in: %s. Configuration: %s",
-		startupCfgSummary(cfg), tag, howA, a, howB, b, a.diff(b), raw)
+	c.Fail("genesis is not a function of the configuration alone: ONE configuration %s (%s) built [A] %s and [B] %s gives two genesis momentums that differ in: %s. [A] %s [B] %s. Configuration: %s",
+		gnCfgSummary(cfg), tag, howA, howB, a.diff(b), a, b, raw)
 }
 
 // genesisPure: see the head of the file. k = index of the configuration in the run.
@@ -538,28 +551,28 @@ func genesisPure(c *Ctx, tmp string, id string, cfg *genesis.GenesisConfig, k in
 	for vi, v := range variants {
 		if vi == 1 {
 			if cr := checkReal(v.cfg); cr != "ok" {
-				c.Fail("boundary values of the scalar members make the validators refuse a consistent configuration (%s): %s", cr, startupCfgSummary(v.cfg))
+				c.Fail("boundary values of the scalar members make the validators refuse a consistent configuration (%s): %s", cr, gnCfgSummary(v.cfg))
 				continue
 			}
 			c.Hit(fmt.Sprintf("pure-boundary:ts=%d", v.cfg.GenesisTimestampSec))
 			c.Hit(fmt.Sprintf("pure-boundary:chain=%d", v.cfg.ChainIdentifier))
 			c.Hit(fmt.Sprintf("pure-boundary:extra-len=%d", len(v.cfg.ExtraData)))
 		}
-		genesisPureOne(c, tmp, v.tag, v.cfg, 2*k+vi, (vi == 1 && (k < 9 || k%3 == 0)) || (vi == 0 && k%10 == 5), vi == 1 && (k < 9 || k%6 == 0), late)
+		genesisPureOne(c, tmp, v.tag, v.cfg, 2*k+vi, (vi == 1 && (k < 9 || k%3 == 0)) || (vi == 0 && k%10 == 5), vi == 1 && (k < 9 || k%6 == 0), vi == 1 && k < 9, late)
 	}
 }
 
-func genesisPureOne(c *Ctx, tmp, tag string, cfg *genesis.GenesisConfig, j int, restart, child bool, late *[]gnLate) {
+func genesisPureOne(c *Ctx, tmp, tag string, cfg *genesis.GenesisConfig, j int, restart, child, keepForLater bool, late *[]gnLate) {
 	gnRealClock()
 	how0 := "in this process under the real clock"
 	base, kind := genesisPrint(cloneCfg(cfg), true)
 	if kind != "ok" {
-		c.Fail("NewGenesis / chain.Init on an accepted configuration: %s (%s, %s)", kind, tag, startupCfgSummary(cfg))
+		c.Fail("NewGenesis / chain.Init on an accepted configuration: %s (%s, %s)", kind, tag, gnCfgSummary(cfg))
 		return
 	}
 	c.Hit("pure-config")
 	gnHeaderClause(c, tag, how0, cfg, base)
-	if late != nil && len(*late) < 8 && (j%2 == 1) {
+	if late != nil && keepForLater && len(*late) < 16 {
 		*late = append(*late, gnLate{tag, cfg, base, time.Now()})
 	}
 	// 1. the surroundings of the process, one at a time and all at once
@@ -619,7 +632,7 @@ func genesisPureOne(c *Ctx, tmp, tag string, cfg *genesis.GenesisConfig, j int, 
 			c.Emit("gen-startup empty %s | %s", h1, r1)
 			if r1 != "started" {
 				gnRealClock()
-				c.Fail("node does not start on an empty database with an accepted configuration: %s (%s, %s)", r1, tag, startupCfgSummary(cfg))
+				c.Fail("node does not start on an empty database with an accepted configuration: %s (%s, %s)", r1, tag, gnCfgSummary(cfg))
 			} else {
 				for _, dt := range []int64{1, 40000, 400000000} {
 					gnFixClock(t1 + dt)
@@ -629,7 +642,7 @@ func genesisPureOne(c *Ctx, tmp, tag string, cfg *genesis.GenesisConfig, j int, 
 					c.Hit("pure-restart-later-clock:" + r2)
 					if r2 != "started" {
 						c.Fail("a node restarted on its OWN database with the UNCHANGED configuration is not started: %s - database created when common.Clock read %d (genesis %s), restart when it read %d (the unchanged configuration now gives genesis %s); configuration %s (%s)",
-							r2, t1, shortHash(h1), t1+dt, shortHash(h2), startupCfgSummary(cfg), tag)
+							r2, t1, shortHash(h1), t1+dt, shortHash(h2), gnCfgSummary(cfg), tag)
 					}
 				}
 				gnRealClock()
@@ -664,7 +677,7 @@ func genesisPureOne(c *Ctx, tmp, tag string, cfg *genesis.GenesisConfig, j int, 
 				c.Hit("pure-restart-from-file:" + r3)
 				if r3 != "started" {
 					c.Fail("a node restarted on its OWN database with the UNCHANGED configuration, read from its genesis file under the real clock, is not started: %s - database created when common.Clock read %d (genesis %s), the file now gives genesis %s; configuration %s (%s)",
-						r3, t1, shortHash(h1), shortHash(h3), startupCfgSummary(cfg), tag)
+						r3, t1, shortHash(h1), shortHash(h3), gnCfgSummary(cfg), tag)
 				}
 			}
 			gnRealClock()
@@ -683,7 +696,7 @@ func genesisPureOne(c *Ctx, tmp, tag string, cfg *genesis.GenesisConfig, j int, 
 		how := fmt.Sprintf("in a child process (clock %s, %s, %s, working directory %s)", clock, env[0], env[1], cwd)
 		c.Hit("pure-child-process")
 		if kind != "ok" {
-			c.Fail("genesis in a child process: %s (%s, %s)", kind, tag, startupCfgSummary(cfg))
+			c.Fail("genesis in a child process: %s (%s, %s)", kind, tag, gnCfgSummary(cfg))
 		} else {
 			gnHeaderClause(c, tag, how, cfg, p)
 			if d := base.diff(p); d != "" {
@@ -713,7 +726,7 @@ func genesisPureDirected(c *Ctx, tmp string, late *[]gnLate) {
 			cfg.ExtraData = gnExtraDataTable[j%len(gnExtraDataTable)]
 		}
 		c.Hit("pure-directed-minimal")
-		genesisPureOne(c, tmp, fmt.Sprintf("minimal configuration #%d", j), cfg, 2*j+1, j < 3, j < 2, late)
+		genesisPureOne(c, tmp, fmt.Sprintf("minimal configuration #%d", j), cfg, 2*j+1, j < 3, j < 2, j < 2, late)
 	}
 	for j := 0; j < 3; j++ {
 		cfg := gnBoundaryCfg(g.EmbeddedGenesis, j*9) // timestamp 0 with three chain identifiers / ExtraData values
@@ -721,7 +734,7 @@ func genesisPureDirected(c *Ctx, tmp string, late *[]gnLate) {
 			continue
 		}
 		c.Hit("pure-directed-mock")
-		genesisPureOne(c, tmp, fmt.Sprintf("mock genesis with boundary scalars #%d", j*9), cfg, 2*j, j == 0, j == 0, late)
+		genesisPureOne(c, tmp, fmt.Sprintf("mock genesis with boundary scalars #%d", j*9), cfg, 2*j, j == 0, j == 0, j == 0, late)
 	}
 }
 
